@@ -101,5 +101,32 @@ fn verif_replay_c15_cache() {
             println!("VERIF-REPLAY reproduced class=purge-not-exact out={:?} len={}", out, c.len());
         }
     }
+    // (5) a purge that finds nothing expired must not change the recency order
+    {
+        let mut c: LruTimeCache<u8, u8> = LruTimeCache::new(Duration::from_secs(60), Some(2));
+        c.insert(1, 1);
+        sleep(short);
+        c.insert(2, 2);
+        sleep(short);
+        let purged = c.remove_expired_values();
+        c.insert(3, 3);
+        if !purged.is_empty() || c.peek(&1).is_some() || c.peek(&2).is_none() || c.peek(&3).is_none() {
+            bad += 1;
+            println!("VERIF-REPLAY reproduced class=purge-changes-recency-order purged={:?}", purged);
+        }
+        // ... also with traffic on the older entry in between
+        let mut c: LruTimeCache<u8, u8> = LruTimeCache::new(Duration::from_secs(60), Some(2));
+        c.insert(1, 1);
+        sleep(short);
+        c.insert(2, 2);
+        sleep(short);
+        let _ = c.get(&1);
+        let _ = c.remove_expired_values();
+        c.insert(3, 3);
+        if c.peek(&2).is_some() || c.peek(&1).is_none() {
+            bad += 1;
+            println!("VERIF-REPLAY reproduced class=purge-changes-recency-order variant=after-traffic");
+        }
+    }
     println!("VERIF-REPLAY done bad={}", bad);
 }
